@@ -9,9 +9,9 @@ import (
 
 func init() {
 	register(&propInfo{
-		ID:     "C14",
-		Run:    runC14,
-		MinObl: 20,
+		ID:          "C14",
+		Run:         runC14,
+		MinObl:      20,
 		Explanation: "Decided: R1 issuance gates — every ID-token sink in the OIDC handlers (explicit, refresh, device, implicit, hybrid) is reached only with Has(granted scopes, openid) true for the grant being served, and GenerateIDToken succeeds only with a non-empty subject; R2 claim provenance in GenerateIDToken: nonce ← the request's nonce (only if at least the minimum length), aud ∋ the requesting client's id, issuer defaulted from the provider when empty, a zero expiry becomes now+lifespan and an expiry before now fails, and unsatisfied max_age / prompt=none|login / id_token_hint subject mismatch are fail exits; R3 hashes: at_hash is computed from responder.GetAccessToken() / the access_token parameter of the same response and c_hash from its code parameter; the hash helper returns base64url of the left half of SHA-256/384/512 chosen by the digits of the header alg; on refresh c_hash is cleared and at_hash recomputed; R4 in ComposeAllEnabled each OAuth2 handler precedes its OIDC companion (explicit, refresh, device). NOT decided: signature validity of the emitted JWT, time arithmetic, what the application put into the session claims.",
 	})
 }
@@ -169,7 +169,9 @@ func c14Generate(c *Ctx) {
 						if o.Key() == field(claims, "Subject").Key() {
 							o = f.Atom.B
 						}
-						if o.Mentions(func(s *Term) bool { return s.Op == "lookup" && len(s.Args) == 2 && s.Args[1].Key() == tStr("sub").Key() }) {
+						if o.Mentions(func(s *Term) bool {
+							return s.Op == "lookup" && len(s.Args) == 2 && s.Args[1].Key() == tStr("sub").Key()
+						}) {
 							okH = true
 						}
 					}
